@@ -173,7 +173,7 @@ impl Rig {
                     return Err(format!("the probe request of {key:?} never reached the server"));
                 }
                 let r = response(status);
-                let bytes: &[u8] = if kind == "partial" { &r[..10] } else if first { &r[..] } else { &r[10..] };
+                let bytes: &[u8] = if kind == "partial" { &r[..9] } else if first { &r[..] } else { &r[9..] };
                 s.write_all(bytes).map_err(|e| format!("server-side write for {key:?}: {e}"))?;
                 if kind == "partial" {
                     self.partial_sent.insert(key.clone());
